@@ -885,6 +885,15 @@ VARIANTS['C18'] += [
     V('missing moov logged through an attribute that does not exist (fix d493f68 reverted)',
       [(f'{VALF}/init_segment.py', "            self.log.error(msg)\n            return None\n        self.validate_moov(moov)", "            self.logging.error(msg)\n            return None\n        self.validate_moov(moov)")],
       'R18.7', 'InitSegment.validate'),
+    V('descriptor child elements cannot reset their errors (fix 6482552 reverted)',
+      [(f'{VALF}/descriptor_element.py', "    def reset_errors(self) -> None:\n        self.elt.reset()\n        for child in self.children:\n            child.reset_errors()\n\n", "")],
+      'R18.8', 'DescriptorElement'),
+    V('event payload elements are no longer DashElements and lack get_errors',
+      [(f'{VALF}/events.py', "class Scte35EventElement(DashElement):\n    def __init__(self, elt, parent: DashElement, schemeIdUri: str) -> None:\n        super().__init__(elt, parent)\n",
+        "class Scte35EventElement:\n    xmlNamespaces = DashElement.xmlNamespaces\n\n    def __init__(self, elt, parent: DashElement, schemeIdUri: str) -> None:\n        self.parent = parent\n")],
+      'R18.8', 'Scte35EventElement'),
+    V('neutral: descriptor child elements reset through a helper loop',
+      [(f'{VALF}/descriptor_element.py', "        self.elt.reset()\n        for child in self.children:\n            child.reset_errors()\n", "        self.elt.reset()\n        for sub in list(self.children):\n            sub.reset_errors()\n")], None),
     V('neutral: missing moov logged at warning level',
       [(f'{VALF}/init_segment.py', "            self.log.error(msg)\n            return None\n        self.validate_moov(moov)", "            self.log.warning(msg)\n            return None\n        self.validate_moov(moov)")], None),
 ]
